@@ -56,7 +56,8 @@ pub fn check_case(l: &mut Local, case: &Case) {
     l.evaluations += 1;
     l.transitions += 2;
     let msg = case.inst.to_msg();
-    let path = scratch_file("rt.mps.gz");
+    // the writer always gzips and the reader always gunzips, whatever the file is called
+    let path = scratch_file(if msg.decision_variables.len() % 2 == 0 { "rt.mps.gz" } else { "rt.mps" });
     let _ = std::fs::remove_file(&path);
     let w = sdk(|| ommx::mps::write_file(&msg, &path).map_err(|e| (format!("{e}"), format!("{e:?}"))));
     let w = match w {
@@ -204,6 +205,9 @@ fn linear_variants(terms: &[(u64, f64)], c: f64) -> Vec<Option<FnRep>> {
         v.push(Some(FnRep::Const(c)));
         if c == 0.0 {
             v.push(None);
+            // the zero function held in a Quadratic without linear part / in an empty Polynomial
+            v.push(Some(FnRep::Quad { entries: vec![], lin: None }));
+            v.push(Some(FnRep::Poly { terms: vec![] }));
         }
     }
     v
